@@ -388,4 +388,171 @@ def negInfer (a : STn) : STn :=
 /-- `Identity`: the input, unchanged. -/
 def identityInfer (a : STn) : STn := a
 
+
+/-! ## Full rules (every branch) of `Unsqueeze`, `Squeeze`, the shape paths of `Gather` and `Concat`,
+`UnaryOp` -/
+
+/-- `UnaryOp`: the input's shape, or unknown. -/
+def unaryInfer (a : STn) : STn :=
+  match a.dims with
+  | some ds => .shape ds
+  | none => .unknown
+
+/-- `Unsqueeze`, all three branches. -/
+def unsqueezeInfer (a axes : STn) : Except Err STn :=
+  match axes.constant with
+  | some (_, idxs) =>
+    match a, idxs with
+    | .scalar e, [0] => .ok (.vector [e])
+    | _, _ => match a.dims with
+      | some _ => unsqueezeShape a idxs
+      | none => .ok .unknown
+  | none => .ok .unknown
+
+/-- `Squeeze`, every branch (`axes = none`: the input is absent). -/
+def squeezeInfer (a : STn) (axes : Option STn) : Except Err STn :=
+  match a.dims with
+  | none => .ok .unknown
+  | some ds =>
+    let constAxes : Option (List Int) :=
+      match axes with
+      | some ax => (match ax.constant with | some (false, idxs) => some idxs | _ => none)
+      | none => none
+    let resolved : Except Err (Option (List Nat)) :=
+      match constAxes with
+      | some idxs => (match mapO (resolveIndex ds.length) idxs with
+          | some rs => .ok (some rs)
+          | none => .error .incorrectRank)
+      | none => .ok none
+    match resolved with
+    | .error e => .error e
+    | .ok rs =>
+      let vecToScalar : Option STn :=
+        match a, rs with
+        | .vector [e], some [0] => some (.scalar e)
+        | .vector [e], none => some (.scalar e)
+        | _, _ => none
+      match vecToScalar with
+      | some r => .ok r
+      | none =>
+        match rs with
+        | some rs => .ok (.shape (removeIdx rs 0 ds))
+        | none =>
+          if axes.isNone && ds.all (fun d => match d with | .val _ => true | _ => false) then
+            .ok (.shape (ds.filter fun d => match d with | .val 1 => false | _ => true))
+          else .ok .unknown
+
+/-- `Gather`: the value path when the data has values and the indices are constant, otherwise the
+shape path `data[..axis] ++ indices.shape ++ data[axis+1..]`. -/
+def gatherInfer (axis : Int) (data indices : STn) : Except Err STn :=
+  match data.dims with
+  | none => .ok .unknown
+  | some dd =>
+    match resolveIndex dd.length axis with
+    | none => .error .incorrectRank
+    | some ax =>
+      match data.values, indices.constant with
+      | some vals, some (isScalar, idxs) => gatherValues vals isScalar idxs
+      | _, _ =>
+        match indices.dims with
+        | some idd => .ok (.shape (dd.take ax ++ idd ++ dd.drop (ax + 1)))
+        | none => .ok .unknown
+
+/-- `Concat`: the value path (axis 0, every input valued) or the shape path (`+=` on the axis);
+`none` = an input of unknown shape makes the code generate a fresh symbol (not modelled). -/
+def concatInfer (axis : Int) (inputs : List STn) : Option (Except Err STn) :=
+  match inputs with
+  | [] => some (.error .incorrectInputCount)
+  | first :: rest =>
+    match first.dims with
+    | none => some (.ok .unknown)
+    | some fd =>
+      match resolveIndex fd.length axis with
+      | none => some (.error .incorrectRank)
+      | some ax =>
+        if ax == 0 && inputs.all (fun t => t.values.isSome) then (concatValues inputs).map Except.ok
+        else
+          (rest.foldl (fun (acc : Option (List Sym)) t =>
+            match acc, t.dims with
+            | some out, some td =>
+              (match td[ax]? with
+               | some d => some (out.set ax (.add (out.getD ax (.val 0)) d))
+               | none => none)
+            | _, _ => none) (some fd)).map fun out => .ok (.shape out)
+
+/-! ## `Pool` (MaxPool / AveragePool) -/
+
+inductive PadSpec
+  | same
+  | fixed (pads : List Int)
+
+/-- `output_size` on symbolic input size and symbolic kernel size (stride, dilation and pads are
+attributes), both padding modes. -/
+def convOutSym (inp k : Sym) (s d : Int) (pad : Option (Int × Int)) (ceil : Bool) : Sym :=
+  match pad with
+  | none => .divCeil inp (.val s)                       -- `DimPadding::Same`
+  | some (ps, pe) =>
+    let one : Sym := .val 1
+    let padded : Sym := .add (.add inp (.val ps)) (.val pe)
+    let w : Sym := .sub (.sub padded (.mul (.val d) (.sub k one))) one
+    if !ceil then .add (.div w (.val s)) one
+    else
+      let maxSize : Sym := .divCeil (.add inp (.val ps)) (.val s)
+      let c : Sym := .divCeil w (.val s)
+      .min (.add c one) (.max c maxSize)
+
+/-- Pooling: the kernel size is an attribute. -/
+def poolOutSym (inp : Sym) (k s d : Int) (pad : Option (Int × Int)) (ceil : Bool) : Sym :=
+  convOutSym inp (.val k) s d pad ceil
+
+def padDim (pad : PadSpec) (i spatial : Nat) : Option (Option (Int × Int)) :=
+  match pad with
+  | .same => some none
+  | .fixed ps => match ps[i]?, ps[spatial + i]? with
+    | some a, some b => some (some (a, b))
+    | _, _ => none
+
+/-- `Pool::infer_shapes`: batch and channel dims are copied, the first one or two spatial dims go
+through `output_size` (dilation 1). -/
+def poolInfer (kernel strides : List Int) (pad : PadSpec) (ceil : Bool) (a : STn) : Except Err STn :=
+  match a.dims with
+  | none => .ok .unknown
+  | some ds =>
+    if ds.length < 3 then .error .incorrectRank
+    else
+      let spatial := ds.length - 2
+      match ds[0]?, ds[1]?, ds[2]?, padDim pad 0 spatial, kernel[0]?, strides[0]? with
+      | some n, some c, some h, some ph, some kh, some sh =>
+        let outH := poolOutSym h kh sh 1 ph ceil
+        match ds[3]? with
+        | none => .ok (.shape [n, c, outH])
+        | some w =>
+          match padDim pad 1 spatial, kernel[1]?, strides[1]? with
+          | some pw, some kw, some sw => .ok (.shape [n, c, outH, poolOutSym w kw sw 1 pw ceil])
+          | _, _, _ => .error .invalidValue
+      | _, _, _, _, _, _ => .error .invalidValue
+
+
+/-- `Conv::infer_shapes`: batch from the data, output channels and kernel sizes from the weights,
+floor mode. -/
+def convInfer (strides dilations : List Int) (pad : PadSpec) (data weights : STn) : Except Err STn :=
+  match data.dims, weights.dims with
+  | none, _ => .ok .unknown
+  | some _, none => .ok .unknown
+  | some ds, some ws =>
+    if ds.length < 3 then .error .incorrectRank
+    else if ws.length != ds.length then .error .incorrectRank
+    else
+      let spatial := ds.length - 2
+      match ds[0]?, ws[0]?, ds[2]?, ws[2]?, padDim pad 0 spatial, strides[0]?, dilations[0]? with
+      | some n, some co, some h, some kh, some ph, some sh, some dh =>
+        let outH := convOutSym h kh sh dh ph false
+        match ds[3]?, ws[3]? with
+        | some w, some kw =>
+          match padDim pad 1 spatial, strides[1]?, dilations[1]? with
+          | some pw, some sw, some dw => .ok (.shape [n, co, outH, convOutSym w kw sw dw pw false])
+          | _, _, _ => .error .invalidValue
+        | _, _ => .ok (.shape [n, co, outH])
+      | _, _, _, _, _, _, _ => .error .invalidValue
+
 end RtenVerif.ShapeInfer
